@@ -995,7 +995,15 @@ func (self *Metadata) restartLocal() error {
 	} else if state == Running {
 		var jobInfo JobInfo
 		if err := self.ReadInto(JobInfoFile, &jobInfo); err == nil &&
-			jobInfo.Pid != 0 {
+			jobInfo.Pid == 0 {
+			// The job's monitor created its log but was killed before it
+			// recorded its pid.  It cannot still be running.
+			if err := self.uncheckedReset(); err == nil {
+				util.PrintInfo("runtime", "(reset-running)   %s", self.fqname)
+			} else {
+				return err
+			}
+		} else if err == nil {
 			if proc, err := os.FindProcess(jobInfo.Pid); err == nil && proc != nil {
 				// From man 2 kill: If sig is 0, then no signal is sent, but error
 				// checking is still performed; this can be used to check for the
